@@ -536,6 +536,9 @@ func (e *c16Env) repoll(s *c16Sess) string {
 
 func (e *c16Env) op(o string) string {
 	kind := o[0]
+	if kind == 'S' {
+		return e.stress(o) // overlapping gets and rets, then a poll: zz_verif_c16conc_test.go
+	}
 	if strings.IndexByte("cd-", kind) >= 0 && len(o) > 1 {
 		i, err := strconv.Atoi(o[1:])
 		if err != nil || i < 0 || i >= len(e.sessions) {
@@ -721,7 +724,7 @@ func (e *c16Env) startOp(o string) string {
 }
 
 func c16Case(args []string) string {
-	if len(args) != 3 || (args[0] != "seq" && args[0] != "seq0" && args[0] != "start" && args[0] != "start0") {
+	if len(args) != 3 || (args[0] != "seq" && args[0] != "seq0" && args[0] != "conc" && args[0] != "start" && args[0] != "start0") {
 		return "!badcase"
 	}
 	capacity, err := strconv.Atoi(args[1])
